@@ -94,7 +94,7 @@ def restrict (g : Graph) (n : Name) : Graph :=
 
 /-- `observer_change_handler`, first half (_has_traits_helpers.py:92-105): remove the
 graph below the old value unless it is Undefined / Uninitialized / None; a
-NotifierNotFound is swallowed (whatever the failed call left behind stays). -/
+NotifierNotFound is swallowed (the failed call has rolled itself back). -/
 def removeOld (h : Heap) (k : HKey) (g : Graph) (old : Val) (H : Hooks) : Res :=
   match valObjects old with
   | w :: _ =>
